@@ -74,7 +74,7 @@ def run(ctx):
     inv = gen_cat.inventory('en') + gen_cat.inventory('en_rebank')
     pairs += [(x, y) for x, y, _ in G.rule_triples('en')]
     pairs += [(rng.choice(uni2), rng.choice(uni2)) for _ in range(ctx.budget(6000, 150000))]
-    pairs += [(x, y) for _, _, x, y in G.pattern_pairs(rng, G.EN_PATTERNS, pool, feats, ctx.budget(15000, 150000), slashes=('/', '\\', '|'))]
+    pairs += [(x, y) for _, _, x, y in G.pattern_pairs(rng, G.EN_PATTERNS, pool, feats, ctx.budget(15000, 150000), slashes=('/', '\\', '|'), deep=gen_cat.deep_pool('en', rng))]
     special = [',', ';', 'conj', '.', 'LRB', 'LQU', 'RRB', ':', 'S[dcl]', 'S[em]\\S[em]', 'S[ng]\\NP', 'S[pss]\\NP', 'S[dcl]/S[dcl]',
                'NP\\NP', 'S/(S\\NP)', '(S\\NP)\\((S\\NP)/NP)', 'NP[nb]/N', 'S[em]\\S[em]', 'N', 'NP']
     for a in special:
